@@ -3,6 +3,7 @@
 -/
 import DiplomatModel.Slices
 import DiplomatModel.Lemmas.Utf8
+import DiplomatModel.Lemmas.JsStr
 namespace DiplomatModel.Props.C16
 open DiplomatModel.Slices DiplomatModel.Utf8
 
@@ -66,5 +67,32 @@ example : validUtf8 [0xC0, 0x80] = false := by decide                        -- 
 example : validUtf8 [0xF4, 0x90, 0x80, 0x80] = false := by decide            -- > U+10FFFF
 example : intoSlice 4 (fromSlice ⟨4096, 7⟩) = ⟨4096, 7⟩ := by decide
 example : ownedDrop (ownedFrom ⟨4, 0⟩) = [⟨4, 0⟩] := by decide              -- zero-length box: dangling, non-null
+
+open DiplomatModel.JsStr in
+/-- **The UTF-8 view of a JS string covers exactly the bytes written**: the length `DiplomatBuf.str8` computes by
+    walking code points is the number of bytes `TextEncoder` produces — for every string, well-formed or not
+    (an unpaired surrogate is three bytes either way). -/
+theorem js_str8_length_exact (us : List Nat) : str8Len us = (encode us).length := by
+  unfold str8Len encode scalars
+  induction codePoints us with
+  | nil => rfl
+  | cons c cs ih =>
+    simp only [List.map_cons, List.sum_cons, List.flatMap_cons, List.length_append, enc_length, cpLen_scalarOf, ih]
+
+open DiplomatModel.JsStr in
+/-- **… and Rust accepts it as a `str`**: the bytes written for any JS string (16-bit units) are well-formed UTF-8
+    by the very check `diplomat_is_str` makes (`validUtf8`, proved equal to the Unicode definition above). -/
+theorem js_str8_is_str (us : List Nat) (h : ∀ u ∈ us, u < 0x10000) : validUtf8 (encode us) = true := by
+  rw [validUtf8_iff]
+  refine ⟨scalars us, ?_, rfl⟩
+  intro c hc
+  unfold scalars at hc
+  obtain ⟨d, hd, rfl⟩ := List.mem_map.mp hc
+  exact scalarOf_isScalar d (codePoints_lt us h d hd)
+
+open DiplomatModel.JsStr in
+/-- a string cut through a surrogate pair ("a" + lead of U+1F600): four bytes, ending in U+FFFD -/
+example : str8Len [0x61, 0xD83D] = 4 ∧ encode [0x61, 0xD83D] = [0x61, 0xEF, 0xBF, 0xBD]
+    ∧ encode [0xD83D, 0xDE00] = [0xF0, 0x9F, 0x98, 0x80] := by decide
 
 end DiplomatModel.Props.C16
